@@ -265,6 +265,20 @@ def check_coh(case):
     return {'nt': n >= 1 and m >= 2 and len(rec['blocks']) >= 1, 'cls': ['coh:kinds=%d' % len(kinds), 'coh:blocks=%d' % len(rec['blocks'])]}
 
 
+MISSING_OPS = ('fillna_dir', 'fillna_sided', 'fillna', 'dropna', 'isna', 'shift', 'roll', 'reduce')
+
+
+@st.composite
+def missing_cases(draw):
+    """Operations whose block-wise implementations carry state across block boundaries (directional and sided fills,
+    drops, shifts), on frames rich in missing values: same differential over layouts as `layout_diff`."""
+    op = draw(ops.frame_op_strategy(only=MISSING_OPS))
+    rec = draw(gen.frame_recipe(min_rows=1, max_rows=4, min_cols=2, max_cols=6, kinds=('float64', 'float64', 'int64', 'object', 'M8[D]', 'bool'),
+                                index_kinds=('auto', 'str'), column_kinds=('auto', 'str')))
+    cols = gen.block_columns(rec['blocks'])
+    return {'rec': rec, 'lay2': draw(gen.relayout(cols)), 'op': op}
+
+
 @st.composite
 def astype_cases(draw):
     """astype[key](dtype) where the requested dtype is one the frame already holds, keys with gaps (stepped slices,
@@ -356,6 +370,12 @@ def tag_diff(case, f):
     if name == 'reduce' and f.kind == 'layout-dtype' and case['op']['args']['fn'] in ('sum', 'prod', 'cumsum', 'cumprod') \
             and any(b.dtype.kind in 'iub' and b.dtype.itemsize < 8 for b in case['rec']['blocks']):
         return 'narrow-int-reduction-dtype-depends-on-layout'
+    # (ix) bool columns mixed with numeric ones: the row dtype is object and the axis-0 reduction runs on object arrays
+    # whose shape follows the block shape (same root as the C15 finding on object row dtypes); only differences in
+    # whether / how the call raises
+    if name == 'reduce' and case['op']['args']['axis'] == 0 and f.kind in ('layout-raise-vs-value', 'layout-raise-class') \
+            and any(b.dtype.kind == 'b' for b in case['rec']['blocks']) and any(b.dtype.kind in 'iufc' for b in case['rec']['blocks']):
+        return 'reduction-over-bool-with-number-rows-depends-on-layout'
     # (v) reductions over frames holding non-numeric columns (str, datetime64, timedelta64, object):
     # the row dtype and hence value type / error depends on consolidation (C15 restricts its own
     # domain to where the function is defined)
@@ -385,6 +405,8 @@ def tag_coh(case, f):
 SUBS = [
     Sub('layout_diff', diff_cases(), check_diff, quick=10000, thorough=80000, tag=tag_diff,
         rule='same columns, 3 layouts, one op: equal observations'),
+    Sub('missing_layouts', missing_cases(), check_diff, quick=4000, thorough=32000, tag=tag_diff,
+        rule='fills / drops / shifts / reductions on frames rich in missing values: same columns, 3 layouts, equal observations'),
     Sub('astype_layouts', astype_cases(), check_astype, quick=3200, thorough=24000,
         rule='astype[key](dtype) over 4 layouts vs the per-column dtype/value model (keys with gaps inside wide blocks)'),
     Sub('coherence', coh_cases(), check_coh, quick=2400, thorough=16000, tag=tag_coh,
